@@ -72,7 +72,6 @@ package mqtt
 //@   ensures[C04] exit_counts: served() <= 1 && written() <= 1
 //@   ensures[C04] exit_order: served() == 1 && written() == 1 && itIsPublish() ==> evIndex("Handler.Serve", 0) < evIndex("(*BaseClient).write", 0)
 //@   ensures[C04] exit_qos2: itIsPublish() && itPublish().Message.QoS == QoS2 ==> served() == 0
-//@   ensures[C04] exit_qos0: itIsPublish() && itPublish().Message.QoS == QoS0 ==> written() == 0
 //@   loop 1 iter[C04] read: itRead()
 //@   loop 1 iter[C04] pub_serve: itIsPublish() && itPublish().Message.QoS <= QoS1 ==>
 //@        served() == ite(c.handler != nil, 1, 0) && (served() == 1 ==> evArg[*Message]("Handler.Serve", 0, 1) == itPublish().Message) && sbSame(subBuffer, sb0)
